@@ -1,15 +1,18 @@
-/-! C04 prototype: `get_best_trials` = stable sort of the COMPLETED trials by score in the objective's
-    direction, padded with the others only when short; direction symmetry. Scores are `Int`
-    (finite, non-NaN: a COMPLETED trial always has such a score by C01). -/
+import Ktm.Sc
+/-! C04: `get_best_trials` = stable sort of the COMPLETED trials by score in the objective's
+    direction, padded with the others only when short; direction symmetry. Scores are extended
+    rationals (−inf, finite, +inf; never NaN: a COMPLETED trial always has a non-NaN score by C01). -/
 namespace Ranking
 
 structure T where
   id : Nat
   completed : Bool
-  score : Int
+  score : Sc
   deriving DecidableEq, Repr
 
-def le (maximize : Bool) (a b : T) : Bool := if maximize then decide (b.score ≤ a.score) else decide (a.score ≤ b.score)
+def le (maximize : Bool) (a b : T) : Bool := if maximize then Sc.le b.score a.score else Sc.le a.score b.score
+
+def negT (t : T) : T := { t with score := t.score.neg }
 
 def bestTrials (maximize : Bool) (ts : List T) (n : Nat) : List T :=
   let sorted := (ts.filter (·.completed)).mergeSort (le maximize)
@@ -17,10 +20,12 @@ def bestTrials (maximize : Bool) (ts : List T) (n : Nat) : List T :=
   padded.take n
 
 theorem le_total (m : Bool) (a b : T) : (le m a b || le m b a) = true := by
-  unfold le; cases m <;> simp <;> omega
+  unfold le; cases m <;> simp <;> first | exact Sc.le_total _ _ | (have := Sc.le_total a.score b.score; simpa using this) | (have := Sc.le_total b.score a.score; simpa using this)
 
 theorem le_trans (m : Bool) (a b c : T) (h1 : le m a b = true) (h2 : le m b c = true) : le m a c = true := by
-  unfold le at *; cases m <;> simp_all <;> omega
+  unfold le at *; cases m <;> simp_all
+  · exact Sc.le_trans _ _ _ h1 h2
+  · exact Sc.le_trans _ _ _ h2 h1
 
 /-- the sorted part is ordered by score in the objective's direction -/
 theorem sorted_pairwise (m : Bool) (ts : List T) :
@@ -63,24 +68,23 @@ theorem completed_prefix (m : Bool) (ts : List T) (n : Nat) :
 
 /-- direction symmetry: maximising `s` ranks exactly like minimising `-s` -/
 theorem symmetric (ts : List T) (n : Nat) :
-    (bestTrials true ts n).map (fun t => { t with score := -t.score }) =
-      bestTrials false (ts.map (fun t => { t with score := -t.score })) n := by
+    (bestTrials true ts n).map negT =
+      bestTrials false (ts.map negT) n := by
   unfold bestTrials
   simp only
-  have hneg : ∀ (p : T → Bool), (∀ t, p { t with score := -t.score } = p t) → ∀ l : List T,
-      (l.map (fun t => { t with score := -t.score })).filter p = (l.filter p).map (fun t => { t with score := -t.score }) := by
+  have hneg : ∀ (p : T → Bool), (∀ t, p (negT t) = p t) → ∀ l : List T,
+      (l.map negT).filter p = (l.filter p).map negT := by
     intro p hp l
     induction l with
     | nil => rfl
     | cons a as ih => simp only [List.map_cons, List.filter_cons, hp a]; split <;> simp [ih]
   rw [hneg (·.completed) (fun _ => rfl), hneg (fun t => !t.completed) (fun _ => rfl)]
-  have hsort : ((ts.filter (·.completed)).mergeSort (le true)).map (fun t => { t with score := -t.score })
-      = ((ts.filter (·.completed)).map (fun t => { t with score := -t.score })).mergeSort (le false) := by
+  have hsort : ((ts.filter (·.completed)).mergeSort (le true)).map negT
+      = ((ts.filter (·.completed)).map negT).mergeSort (le false) := by
     apply List.map_mergeSort
     intro a _ b _
-    simp only [le, if_true, Bool.false_eq_true, if_false]
-    congr 1
-    exact propext ⟨fun h => by omega, fun h => by omega⟩
+    simp only [le, if_true, Bool.false_eq_true, if_false, negT]
+    exact (Sc.neg_le_neg _ _).symm
   rw [← hsort]
   simp only [List.length_map]
   split
